@@ -154,7 +154,9 @@ def write(p, path):
     for a in arcs:
         base = "%d\t%d\t%s\t%s\t%d\t%d\t%d" % (a["n0"], a["n1"], g(a["angle"]), g(a.get("maxseg", 10)), a.get("bdry", 0), a.get("hidden", 0), a.get("group", 0))
         if kind == "fem":
-            L.append(base)
+            # FEMM 4.2 and xfemm write an eighth column for magnetics arcs (the side length the arc was last meshed with: book-keeping
+            # of the editor, no input of the mesher)
+            L.append(base + ("\t%s" % g(a["meshedside"]) if "meshedside" in a else ""))
         else:
             L.append(base + "\t%d" % a.get("cond", 0))
     holes = p.get("holes", [])
